@@ -321,7 +321,14 @@ func drive(id string, p Prop, tier string) int {
 		caseFile := v.rec.CaseFile
 		confirm := func(file string) bool {
 			if v.race {
-				return runProc(5*time.Minute, raceEnv(filepath.Join(e.work, "confirm")), e.race, "replay", id, file).code == 66
+				// a race report is never a false positive, but ThreadSanitizer evicts shadow
+				// cells pseudo-randomly, so one replay may miss it: up to 4 attempts
+				for try := 0; try < 4; try++ {
+					if runProc(5*time.Minute, raceEnv(filepath.Join(e.work, "confirm")), e.race, "replay", id, file).code == 66 {
+						return true
+					}
+				}
+				return false
 			}
 			bin, envv := e.plain, []string{"GOMAXPROCS=1"}
 			if v.plan.Race {
@@ -382,7 +389,12 @@ func drive(id string, p Prop, tier string) int {
 		}
 		var cr procResult
 		if v.race {
-			cr = runProc(5*time.Minute, raceEnv(filepath.Join(e.work, "final")), e.race, "replay", id, minFile)
+			for try := 0; try < 6; try++ {
+				cr = runProc(5*time.Minute, raceEnv(filepath.Join(e.work, "final")), e.race, "replay", id, minFile)
+				if cr.code == 66 {
+					break
+				}
+			}
 		} else {
 			bin, envv := e.plain, []string{"GOMAXPROCS=1"}
 			if v.plan.Race {
@@ -674,8 +686,13 @@ func shrinkCmd(id string, p Prop, in, out string, args []string) int {
 	failsFile := func(path string) bool {
 		n++
 		if racebin != "" {
-			r := runProc(2*time.Minute, raceEnv(filepath.Join(tmp, fmt.Sprintf("r%d", n))), racebin, "replay", id, path)
-			return r.code == 66
+			for try := 0; try < 2; try++ {
+				r := runProc(2*time.Minute, raceEnv(filepath.Join(tmp, fmt.Sprintf("r%d-%d", n, try))), racebin, "replay", id, path)
+				if r.code == 66 {
+					return true
+				}
+			}
+			return false
 		}
 		r := runProc(2*time.Minute, []string{"GOMAXPROCS=1"}, self, "replay", id, path)
 		return r.code == 1 && (class == "" || strings.Contains(r.out, "class="+class+" "))
